@@ -375,6 +375,57 @@ def run_pipeline_case():
             pass
 
 
+def run_defaults_case():
+    """the dump pipeline's built-in helper templates (add_default_templates) are only added where the wiki has none:
+    pages already stored -- here a flagged template, a redirect from a helper title to it and an includer -- keep
+    their rows and their marks, on the first and on a repeated run"""
+    global evaluations
+    from wikitextprocessor.dumpparser import add_default_templates
+    evaluations += 1
+    with quiet_stdout():
+        ctx = Wtp(quiet=True)
+    try:
+        def classify(c, page):
+            b = page.body or ""
+            return {nm for nm in ("open", "((", "!") if "{{%s}}" % nm in b}, "==h==" in b
+        ctx.add_page("Template:open", 10, "x ==h==")
+        ctx.add_page("Template:((", 10, redirect_to="Template:open")
+        ctx.add_page("Template:!", 10, "bar ==h==")
+        ctx.add_page("Template:U", 10, "{{((}} u")
+        ctx.add_page("Template:V", 10, "{{!}} v")
+
+        def rows():
+            return {p.title: (p.namespace_id, p.body, p.redirect_to, bool(p.need_pre_expand)) for p in ctx.get_all_pages([10])}
+        for step in ("first run", "repeated run"):
+            with quiet_stdout():
+                add_default_templates(ctx)
+                if step == "first run":
+                    ctx.analyze_templates(classify)
+                    ref = rows()
+            now = rows()
+            if step == "first run":
+                # (the statement adds redirects after the closure: the includer U of the redirect page is not marked)
+                want = {"Template:open", "Template:((", "Template:!", "Template:V"}
+                got = {t for t, r in now.items() if r[3]}
+                if got != want or now["Template:(("][2] != "Template:open":
+                    fail("core:Wtp.analyze_templates#marks-exactly-the-least-closed-set[built-in-helper-templates]",
+                         f"wiki-defined helper templates (a flagged 'Template:!', a redirect 'Template:((' to a flagged one): marked "
+                         f"{sorted(got)} want {sorted(want)}; Template:(( redirects to {now['Template:(('][2]!r}",
+                         {"history": "add pages; add_default_templates; analyze_templates"}, "missing" if want - got else "extra")
+            elif now != ref:
+                diff = {t: (ref.get(t), now.get(t)) for t in set(ref) | set(now) if ref.get(t) != now.get(t)}
+                fail("core:Wtp.analyze_templates#marks-exactly-the-least-closed-set[built-in-helper-templates]",
+                     f"a repeated add_default_templates changed stored template rows / marks: {diff}",
+                     {"history": "add pages; add_default_templates; analyze_templates; add_default_templates"}, "rows-changed")
+        distinct.add(("defaults", 0))
+    finally:
+        try:
+            ctx.close_db_conn()
+        except Exception:
+            pass
+
+
+run_defaults_case()
 run_pipeline_case()
 run_overwrite_case()
 run_override_case(False)
